@@ -37,4 +37,9 @@ def queries(tier):
         qs.append(Query('rrt_solve[starts=%d,iterations<=%d]' % (nst, mit), 'C01_rrt.cpp', 'harness_rrt_solve', tus=RTUS, defines={'NSTART': nst, 'MAXIT': mit, 'VT_VEC_CAP': 8}, stdmodel=('vec',),
                         cxxflags=RNG_ENV + ('-fno-inline',), c_override=REL, unwind=mit + nst + 4, timeout=to, checks='none', mem_gb=20,
                         bound='geometric::RRT::solve with %d start states, termination condition firing at evaluation 0..%d, every sampler/nearest/distance/validity/goal outcome' % (nst, mit)))
+    # (4 M variables: undecided within the quick budget - thorough tier)
+    for nst, mit in ([] if tier == 'quick' else [(1, 1), (1, 2)]):
+        qs.append(Query('rrt_solve[intermediate states,starts=%d,iterations<=%d]' % (nst, mit), 'C01_rrt.cpp', 'harness_rrt_solve', tus=RTUS, defines={'NSTART': nst, 'MAXIT': mit, 'INTERMEDIATE': 1, 'VT_VEC_CAP': 8}, stdmodel=('vec',),
+                        cxxflags=RNG_ENV + ('-fno-inline',), c_override=REL, unwind=2 * mit + nst + 4, timeout=to, checks='none', mem_gb=20,
+                        bound='geometric::RRT::solve in addIntermediateStates mode (motions of 1 or 2 segments; getMotionStates is an environment model) with %d start states, termination condition firing at evaluation 0..%d' % (nst, mit)))
     return qs
